@@ -60,6 +60,8 @@ func lzhuf.newLZHUFF() (z)
   ensures inv: HuffInv(z)
   ensures canonical-leaves: (forall m :: 0 <= m && m < _NumChar ==> z.freq[m] == 1 && z.son[m] == m + _T) && (forall k :: _T <= k && k < _T + _NumChar ==> z.prnt[k] == k - _T)
   ensures canonical-internal: forall m :: _NumChar <= m && m < _T ==> z.son[m] == 2 * (m - _NumChar) && z.prnt[2 * (m - _NumChar)] == m && z.prnt[2 * (m - _NumChar) + 1] == m
+  loop 0 decreases _NumChar - i
+  loop 1 decreases _R + 1 - j
   loop 0 invariant i: 0 <= i && i <= _NumChar && z != nil
   loop 0 invariant leaves: forall m :: 0 <= m && m < i ==> z.freq[m] == 1 && z.son[m] == m + _T
   loop 0 invariant leafpos: forall k :: _T <= k && k < _T + i ==> z.prnt[k] == k - _T
@@ -77,6 +79,7 @@ func lzhuf.newLZHUFF() (z)
 
 func lzhuf.(*bitReader).ReadBits64(br, bits) (n)
   props C08 C03
+  loop 0 reads-input each iteration reads one byte of the compressed stream
   inline
   requires src: br.r != nil
 
@@ -152,6 +155,7 @@ func lzhuf.NewReader(r, crc16) (d, err)
   ensures inv: err == nil ==> d != nil && ReaderInv(d)
   ensures fresh: err == nil ==> d.state.pos == 0 && d.state.buf.len == 0 && d.err == nil && d.crc16 == crc16 && d.r.err == nil
   loop 0 invariant d: d != nil && d.z != nil
+  loop 0 decreases _N - _F - i
 
 # the B2 format always carries (and the Reader verifies) the CRC-16
 func lzhuf.NewB2Reader(r) (d, err)
